@@ -51,7 +51,7 @@ struct Word {
   std::uint8_t rr;
 };
 
-constexpr std::size_t kWords = 1u << 16;
+constexpr std::size_t kWords = 1u << 13;
 Word gWords[kWords];
 std::uint32_t gUsed[kWords];
 std::uint32_t gNUsed = 0;
@@ -69,8 +69,9 @@ struct Block {
   const void* p;
   std::size_t n;
 };
-constexpr std::size_t kBlocks = 1u << 14;
+constexpr std::size_t kBlocks = 1u << 11;
 Block gBlocks[kBlocks];
+bool gBlocksDirty = false;
 
 VC gC[kF];
 VC gRelFence[kF];
@@ -363,6 +364,10 @@ void ResetExecution() {
     gHasRelFence[i] = false;
     gStarted[i] = false;
   }
+  if (gBlocksDirty) {
+    std::memset(gBlocks, 0, sizeof(gBlocks));
+    gBlocksDirty = false;
+  }
   gCur = -1;
   gIgnore = 0;
   gActive = true;
@@ -466,6 +471,7 @@ void OnAlloc(const void* p, std::size_t n) {
   if (b != nullptr) {
     b->p = p;
     b->n = n != 0 ? n : 1;
+    gBlocksDirty = true;
   }
   ClearRange(reinterpret_cast<std::uintptr_t>(p), reinterpret_cast<std::uintptr_t>(p) + n);
 }
